@@ -88,6 +88,7 @@ pub struct Stats {
 
 pub struct Cx<'tcx> {
     pub loop_bound: Option<usize>,
+    pub dump: Option<String>,
     pub tcx: TyCtxt<'tcx>,
     pub tenv: TypingEnv<'tcx>,
     pub stats: std::cell::RefCell<Stats>,
@@ -109,6 +110,7 @@ impl<'tcx> Cx<'tcx> {
     pub fn new(tcx: TyCtxt<'tcx>, tenv: TypingEnv<'tcx>) -> Self {
         Cx {
             loop_bound: std::env::var("MIRSUM_LOOP_BOUND").ok().and_then(|s| s.parse().ok()),
+            dump: std::env::var("MIRSUM_DUMP").ok(),
             tcx,
             tenv,
             stats: std::cell::RefCell::new(Stats { steps: 0, leaves: 0, fresh: 0, inlined: vec![], models: vec![], uninterp: vec![] }),
@@ -520,7 +522,26 @@ impl<'tcx> Cx<'tcx> {
         if let ty::FnDef(..) = ty.kind() {
             return Ok(V::Fn(ty));
         }
-        if let Some(s) = cc.try_eval_scalar_int(self.tcx, self.tenv) {
+        use rustc_middle::ty::TypeVisitableExt;
+        // a promoted whose body is not available (cross-crate inlined bodies), or a constant that is still
+        // generic, cannot be evaluated: keep it as an opaque term instead of asking the const evaluator
+        let mut evaluable = !cc.has_non_region_param();
+        if let mir::Const::Unevaluated(uv, _) = cc {
+            if let Some(p) = uv.promoted {
+                if self.tcx.promoted_mir(uv.def).get(p).is_none() {
+                    evaluable = false;
+                }
+            }
+        }
+        if !evaluable {
+            if let mir::Const::Unevaluated(uv, _) = cc {
+                if let Some(v) = self.eval_promoted(st, uv) {
+                    return Ok(v);
+                }
+            }
+        }
+        let scalar = if evaluable { cc.try_eval_scalar_int(self.tcx, self.tenv) } else { None };
+        if let Some(s) = scalar {
             let bits = s.to_bits(s.size());
             if ty.is_floating_point() {
                 return Ok(match s.size().bytes() {
@@ -529,12 +550,26 @@ impl<'tcx> Cx<'tcx> {
                     _ => V::Sym(atom(&format!("const<{:?}>", cc))),
                 });
             }
+            // a field-less enum constant (Ordering, ControlFlow<(), ()>, ...) is an enum value, not an integer
+            if let ty::Adt(def, _) = ty.kind() {
+                if def.is_enum() {
+                    for (vi, _) in def.variants().iter_enumerated() {
+                        if let Some(d) = ty.discriminant_for_variant(self.tcx, vi) {
+                            let size = s.size();
+                            if size.truncate(d.val) == bits {
+                                let nf = def.variant(vi).fields.len();
+                                return Ok(V::Enum(vi.as_u32(), vec![V::Agg(vec![]); nf]));
+                            }
+                        }
+                    }
+                }
+            }
             return Ok(V::Int(bits));
         }
         if ty.is_unit() {
             return Ok(V::Agg(vec![]));
         }
-        if let Ok(val) = cc.eval(self.tcx, self.tenv, c.span) {
+        if let Some(Ok(val)) = evaluable.then(|| cc.eval(self.tcx, self.tenv, c.span)) {
             if let ty::Ref(_, inner, _) = ty.kind() {
                 if inner.is_str() {
                     if let Some(bytes) = val.try_get_slice_bytes_for_diagnostics(self.tcx) {
@@ -550,7 +585,7 @@ impl<'tcx> Cx<'tcx> {
                 }
             }
         }
-        let shown = match cc.eval(self.tcx, self.tenv, c.span) {
+        let shown = match if evaluable { cc.eval(self.tcx, self.tenv, c.span) } else { Err(rustc_middle::mir::interpret::ErrorHandled::TooGeneric(c.span)) } {
             Ok(val) => self.str_slice_const(val, ty).unwrap_or_else(|| format!("{}", mir::Const::Val(val, ty))),
             Err(_) => format!("{}", cc),
         };
@@ -564,6 +599,45 @@ impl<'tcx> Cx<'tcx> {
     }
 
     /// contents of a `&[&str]` constant (serde field tables), read from the constant's allocations
+    /// A promoted whose type still mentions the root's parameters (`&ControlFlow::Continue(())` inside a generic
+    /// iterator method): its body is one straight-line block, which is interpreted directly.
+    fn eval_promoted(&self, st: &mut State<'tcx>, uv: mir::UnevaluatedConst<'tcx>) -> Option<V<'tcx>> {
+        let tcx = self.tcx;
+        let p = uv.promoted?;
+        let body = tcx.promoted_mir(uv.def).get(p)?;
+        if body.basic_blocks.len() != 1 || !matches!(body.basic_blocks[mir::START_BLOCK].terminator().kind, TerminatorKind::Return) {
+            return None;
+        }
+        let inst = Instance::new_raw(uv.def, uv.args);
+        let ncells = st.cells.len();
+        let mut locals = vec![];
+        for decl in body.local_decls.iter() {
+            let lty = inst.try_instantiate_mir_and_normalize_erasing_regions(tcx, self.tenv, EarlyBinder::bind(decl.ty)).ok()?;
+            st.cells.push(Cell { ty: lty, v: V::Undef, name: None });
+            locals.push(st.cells.len() - 1);
+        }
+        st.frames.push(Frame { visits: vec![], inst, body, locals: locals.clone(), bb: mir::START_BLOCK, ret_to: None });
+        let r: R<V<'tcx>> = (|| {
+            for stmt in &body.basic_blocks[mir::START_BLOCK].statements {
+                if let StatementKind::Assign(b) = &stmt.kind {
+                    let (pl, rv) = &**b;
+                    let v = self.eval_rvalue(st, rv)?;
+                    let ptr = self.eval_place(st, pl)?;
+                    self.write(st, &ptr, v)?;
+                }
+            }
+            Ok(st.cells[locals[0]].v.clone())
+        })();
+        st.frames.pop();
+        match r {
+            Ok(v) if !matches!(v, V::Undef) => Some(v),
+            _ => {
+                st.cells.truncate(ncells);
+                None
+            }
+        }
+    }
+
     fn str_slice_const(&self, val: mir::ConstValue, ty: Ty<'tcx>) -> Option<String> {
         let ty::Ref(_, inner, _) = ty.kind() else { return None };
         let ty::Slice(elem) = inner.kind() else { return None };
@@ -939,6 +1013,9 @@ impl<'tcx> Cx<'tcx> {
                         Ok(V::Int(d))
                     }
                     V::Sym(t) => Ok(V::Sym(app("discr", vec![t]))),
+                    // optimised library MIR reads the discriminant of a dead local only to `assume` it; an unknown
+                    // atom keeps any real use visible (it would fork on an opaque condition)
+                    V::Undef => Ok(V::Sym(self.fresh("undef_discr"))),
                     other => Err(format!("discriminant of {:?}", other)),
                 }
             }
@@ -1477,6 +1554,20 @@ impl<'tcx> Cx<'tcx> {
                         return Ok(Some(V::Iter { ptr: q, front: 0, back: n as usize, by_value: true }));
                     }
                 }
+                // `for x in &array` / `for x in slice`: the same cursor `iter()` gives
+                if let (ty::Ref(_, inner, _), V::Ref(p)) = (t0.kind(), v0) {
+                    match (inner.kind(), p.win) {
+                        (ty::Array(_, n), None) => {
+                            if let Some(n) = n.try_to_target_usize(self.tcx) {
+                                let mut q = p.clone();
+                                q.win = Some((0, n as usize));
+                                return Ok(Some(V::Iter { ptr: q, front: 0, back: n as usize, by_value: false }));
+                            }
+                        }
+                        (ty::Slice(_), Some((_, len))) => return Ok(Some(V::Iter { ptr: p.clone(), front: 0, back: len, by_value: false })),
+                        _ => {}
+                    }
+                }
             }
         }
         if pretty == "core::slice::<impl [T]>::get_unchecked" || pretty == "core::slice::<impl [T]>::get_unchecked_mut" || pretty == "std::slice::<impl [T]>::get_unchecked" || pretty == "std::slice::<impl [T]>::get_unchecked_mut" {
@@ -1569,7 +1660,10 @@ impl<'tcx> Cx<'tcx> {
                 return Ok(o);
             }
         }
-        let always_opaque = name == "core::iter::traits::iterator::Iterator::fold" && !concrete_iter
+        // `(0..3).fold(..)`: a range with concrete bounds unrolls like a for-loop over it
+        let concrete_range = matches!(argv.first(), Some(V::Agg(fs)) if fs.len() == 2 && fs.iter().all(|f| matches!(f, V::Int(_))))
+            && matches!(argtys.first().map(|t| t.kind()), Some(ty::Adt(d, _)) if tcx.def_path_str(d.did()).ends_with("ops::Range"));
+        let always_opaque = name == "core::iter::traits::iterator::Iterator::fold" && !concrete_iter && !concrete_range
             || (pretty == "core::slice::<impl [T]>::iter" || pretty == "core::slice::<impl [T]>::iter_mut") && !matches!(argv.first(), Some(V::Ref(p)) if p.win.is_some())
             || name.starts_with("core::slice::index")
             || name == "core::ops::index::Index::index" && cargs.len() > 0 && matches!(cargs[0].expect_ty().kind(), ty::Slice(_) | ty::Array(..)) && !matches!(argv.get(1), Some(V::Int(_)))
@@ -1638,6 +1732,7 @@ impl<'tcx> Cx<'tcx> {
                         st.cells[locals[i + 1]].v = a.clone();
                     }
                 }
+                self.dump(inst, body);
                 st.frames.push(Frame { visits: vec![], inst, body, locals, bb: mir::START_BLOCK, ret_to: Some((dest, target)) });
                 return Ok(None);
             }
@@ -1719,13 +1814,22 @@ impl<'tcx> Cx<'tcx> {
         let tcx = self.tcx;
         let mname = tcx.item_name(cdid).to_string();
         // is the receiver itself a cursor (possibly behind a reference)?
-        let (slot, cur) = match &argv[0] {
-            V::Ref(p) => match self.read(st, p)? {
-                it @ V::Iter { .. } => (Some(p.clone()), Some(it)),
+        let (slot, cur) = {
+            let mut slotp: Option<Ptr<'tcx>> = None;
+            let mut curv = argv[0].clone();
+            for _ in 0..4 {
+                match curv {
+                    V::Ref(p) if p.win.is_none() => {
+                        curv = self.read(st, &p)?;
+                        slotp = Some(p);
+                    }
+                    _ => break,
+                }
+            }
+            match curv {
+                it @ V::Iter { .. } => (slotp, Some(it)),
                 _ => (None, None),
-            },
-            it @ V::Iter { .. } => (None, Some(it.clone())),
-            _ => (None, None),
+            }
         };
         if let Some(V::Iter { ptr, front, back, by_value }) = cur {
             let some = |v: V<'tcx>| V::Enum(1, vec![v]);
@@ -1775,6 +1879,8 @@ impl<'tcx> Cx<'tcx> {
                 // only when the resolved impl method is an override inside core's slice/array iterator modules
                 if let Ok(Some(inst)) = Instance::try_resolve(tcx, self.tenv, cdid, cargs) {
                     let rn = self.iname(inst.def_id());
+                    // overrides that only call next() are interpreted as they are
+                    // (core's own MIR is pre-optimised: even overrides written with next() have it inlined)
                     let overridden = inst.def_id() != cdid && (rn.starts_with("core::slice::iter") || rn.starts_with("core::array::iter"));
                     if overridden {
                         let dinst = Instance::new_raw(cdid, cargs);
@@ -1787,6 +1893,21 @@ impl<'tcx> Cx<'tcx> {
         Ok(None)
     }
 
+    fn dump(&self, inst: Instance<'tcx>, body: &Body<'tcx>) {
+        if let Some(pat) = &self.dump {
+            if self.tcx.def_path_str(inst.def_id()).contains(pat.as_str()) {
+                eprintln!("DUMP {:?}", inst);
+                for (bb, d) in body.basic_blocks.iter_enumerated() {
+                    eprintln!("  {:?}:", bb);
+                    for s in &d.statements {
+                        eprintln!("    {:?}", s);
+                    }
+                    eprintln!("    => {:?}", d.terminator().kind);
+                }
+            }
+        }
+    }
+
     fn push_frame(&self, st: &mut State<'tcx>, inst: Instance<'tcx>, argv: Vec<V<'tcx>>, dest: Ptr<'tcx>, target: Option<BasicBlock>) -> R<()> {
         let tcx = self.tcx;
         if st.frames.len() > DEPTH_CAP {
@@ -1796,6 +1917,7 @@ impl<'tcx> Cx<'tcx> {
         if body.arg_count != argv.len() {
             return Err("argument count mismatch (default iterator method)".into());
         }
+        self.dump(inst, body);
         let mut locals = vec![];
         for decl in body.local_decls.iter() {
             let lty = inst.instantiate_mir_and_normalize_erasing_regions(tcx, self.tenv, EarlyBinder::bind(decl.ty));
